@@ -137,8 +137,9 @@ def m_str_misc(ex, f, a):
         if isinstance(rg, Agg) and len(rg.fields) == 2:      # str::get(start..end): None unless both ends are in range and on char boundaries
             st_ = ex.concretize(rg.fields[0], 'str::get start'); en_ = ex.concretize(rg.fields[1], 'str::get end'); b = t.encode()
             if not (0 <= st_ <= en_ <= len(b)): return NONE()
-            try: return some(mkstr(b[st_:en_].decode()))
-            except UnicodeDecodeError: return NONE()
+            def boundary(i): return i == len(b) or (b[i] & 0xC0) != 0x80          # both ends must be char boundaries, also of an empty range
+            if not boundary(st_) or not boundary(en_): return NONE()
+            return some(mkstr(b[st_:en_].decode()))
         raise Unsupported('str::get with a non-range index')
     if op == 'repeat': return mkstr(t * a[1])
     if op == 'eq_ignore_ascii_case': return t.lower() == pystr(ex.deref(a[1])).lower()
